@@ -128,7 +128,11 @@ func word(p *prng.R, n int) string {
 }
 
 func genBody(p *prng.R, dir string) (buffer.Buffer, []byte, string) {
-	switch p.Intn(8) {
+	return genBodyKind(p, dir, p.Intn(8))
+}
+
+func genBodyKind(p *prng.R, dir string, kind int) (buffer.Buffer, []byte, string) {
+	switch kind {
 	case 0:
 		return buffer.MemoryBuffer{Slice: []byte{}}, []byte{}, "body-empty"
 	case 1:
@@ -370,6 +374,8 @@ func TestVerif(t *testing.T) {
 		sn.op(op)
 	}))
 	defer osshim.SetRecorder(nil)
+
+	bounceCases(t, r, sc)
 
 	n := r.N(1200, 16000)
 	for i := 0; i < n; i++ {
